@@ -48,7 +48,10 @@ fn name_key(s: &str) -> String {
     }
 }
 fn toml_safe(fs: &[ModuleFilter]) -> bool {
-    fs.iter().all(|f| match &f.module_name {
+    let mut names: Vec<&Option<String>> = fs.iter().map(|f| &f.module_name).collect();
+    names.sort();
+    names.dedup();
+    names.len() == fs.len() && fs.iter().all(|f| match &f.module_name {
         None => true,
         Some(n) => !n.is_empty() && n.chars().all(|c| c.is_ascii_alphanumeric() || c == '_' || c == ':'),
     })
